@@ -128,6 +128,45 @@ def u_draws(rec, spec, n):
                 out = kernel_replay(rr, nl)
                 if out is not None:
                     return out
+        return routing_replay(vals)
+
+    def routing_replay(vals):
+        """which row is drawn from: record the probability rows the real (eager) simulation hands to
+        random_choice and compare them, per period and stochastic variable, with the rows of the
+        transition arrays selected by the agents' states, choices and period in the simulated frame"""
+        import jax
+        import lcm.next_state as ns
+
+        vals = {k: v for k, v in vals.items() if k in S.symbols}
+        seen = []
+        orig = ns.random_choice
+
+        def spy(key, probs, labels):
+            seen.append(np.asarray(probs, dtype=float))
+            return orig(key, probs, labels)
+
+        ns.random_choice = spy
+        try:
+            with jax.disable_jit():
+                frame = conc_run(vals, 11)
+        finally:
+            ns.random_choice = orig
+        subs = {S.symbols[k]: v for k, v in vals.items()}
+        ccols, _ix = frame_terms(frame)
+        unused = list(seen)
+        for t in range(T):
+            exp = {}
+            for i in range(n):
+                st, ch = row_env(ref, ccols, t * n + i)
+                _det, sto = ref.next_states({**st, **ch}, t)
+                for s_, nodes in sto:
+                    exp.setdefault(s_, []).append([float(sj.evaluate(w, subs)) for (_, w) in nodes])
+            for s_, rows in exp.items():
+                E = np.array(rows, dtype=float)
+                hit = next((k for k, m in enumerate(unused) if m.shape == E.shape and np.allclose(m, E, rtol=1e-6, atol=1e-9)), None)
+                if hit is None:
+                    return {"what": f"the probabilities handed to the draw of next {s_} in period {t} are not the rows of params['shocks'] selected by the agents' states, choices and period", "observed": [m.tolist() for m in seen if m.shape == E.shape][:4], "expected": E.tolist()}
+                unused.pop(hit)
         return None
 
     def key_replay(vals):
